@@ -158,22 +158,51 @@ func Jobs(seed int64, n int, kinds string) []Job {
 				})
 		}
 		if strings.Contains(kinds, "t") {
-			fam = append(fam, func() Job {
-				words := []string{"lorem", "ipsum", "dolor", "sit", "amet", "AV", "fi", "Wide"}
+			spans := func(t *canvas.Text) string {
+				var out strings.Builder
+				t.WalkSpans(func(x, y float64, span canvas.TextSpan) {
+					fmt.Fprintf(&out, "%.6f,%.6f,%q,%.6f;", x, y, span.Text, span.Width)
+				})
+				return out.String()
+			}
+			words := []string{"lorem", "ipsum", "dolor", "sit", "amet", "AV", "fi", "Wide"}
+			mkText := func() string {
 				var sb strings.Builder
 				for k := 0; k < 6+r.Intn(10); k++ {
 					sb.WriteString(words[r.Intn(len(words))])
 					sb.WriteByte(' ')
 				}
-				txt, width, al := sb.String(), 20+float64(r.Intn(30)), canvas.TextAlign(r.Intn(4))
+				return sb.String()
+			}
+			// styles that are not loaded in the shared family (only Regular is): the closest font is used with faux bold/italic
+			styles := []canvas.FontStyle{canvas.FontRegular, canvas.FontBold, canvas.FontItalic, canvas.FontBold | canvas.FontItalic}
+			variants := []canvas.FontVariant{canvas.FontNormal, canvas.FontSubscript, canvas.FontSuperscript}
+			fam = append(fam, func() Job {
+				txt, width, al := mkText(), 20+float64(r.Intn(30)), canvas.TextAlign(r.Intn(4))
+				style, variant := styles[r.Intn(len(styles))], variants[r.Intn(len(variants))]
 				return Job{fmt.Sprintf("text/%d", s), func() string {
-					face := family.Face(10.0, canvas.Black)
+					face := family.Face(10.0, canvas.Black, style, variant)
 					t := canvas.NewTextBox(face, txt, width, 0, al, canvas.Top, 0, 0)
-					var out strings.Builder
-					t.WalkSpans(func(x, y float64, span canvas.TextSpan) {
-						fmt.Fprintf(&out, "%.6f,%.6f,%q,%.6f;", x, y, span.Text, span.Width)
-					})
-					return out.String()
+					return fmt.Sprintf("faux=%v,%v;", face.FauxBold, face.FauxItalic) + spans(t)
+				}}
+			}, func() Job {
+				// rich text: several runs with face / size switches inside one paragraph, same loaded font
+				n := 2 + r.Intn(4)
+				texts := make([]string, n)
+				sizes := make([]float64, n)
+				sts := make([]canvas.FontStyle, n)
+				for k := range texts {
+					texts[k] = words[r.Intn(len(words))] + " " + words[r.Intn(len(words))] + " "
+					sizes[k] = []float64{8, 10, 12}[r.Intn(3)]
+					sts[k] = styles[r.Intn(len(styles))]
+				}
+				width, al := 25+float64(r.Intn(30)), canvas.TextAlign(r.Intn(4))
+				return Job{fmt.Sprintf("richtext/%d", s), func() string {
+					rt := canvas.NewRichText(family.Face(10.0, canvas.Black))
+					for k := range texts {
+						rt.WriteFace(family.Face(sizes[k], canvas.Black, sts[k]), texts[k])
+					}
+					return spans(rt.ToText(width, 0, al, canvas.Top, 0, 0))
 				}}
 			})
 		}
